@@ -56,10 +56,26 @@ def run_property(pid: str, tier: str, repo_root: str, seed: int, only_key=None) 
         repo = Repo(repo_root)
         mod = importlib.import_module(f'sa.rules.{pid.lower()}')
         chk = Check(pid, tier, repo, seed, only_key=only_key)
-        mod.run(chk)
+        from .index import AnalysisError
         from .rules import hygiene
-        hygiene.run(chk)
-        run_dependencies(chk)
+        err = None
+        try:
+            mod.run(chk)
+        except AnalysisError as e:
+            err = e
+        try:
+            hygiene.run(chk)
+        except AnalysisError as e:
+            err = err or e
+        if err is None:
+            run_dependencies(chk)
+        elif not chk.findings:
+            raise err
+        else:
+            # a recognised-and-wrong construct has been named: that verdict stands although another rule could not be evaluated
+            msg = f'rule {err.rule} could not be evaluated at {err.anchor} ({err.why[:200]}); the violations reported are definite'
+            chk.note(msg)
+            print('NOTE: ' + msg)
         if tier == 'thorough' and not only_key and os.environ.get('SA_NO_SELFTEST') != '1':
             from . import selftest
             selftest.run_for(chk)
